@@ -127,7 +127,7 @@ Lemma exec_agree s j co :
      (jbadexec x = true \/ getj (exec_job c s j co) j = Some (with_phase x PDryStop))).
 Proof.
   unfold exec_job. destruct (getj s j) as [x|] eqn:Hx; [|left; reflexivity].
-  change (cse_lookup (real_of c) s (jkey x) (jctx x)) with (cse_lookup c s (jkey x) (jctx x)).
+  change (cse_eff (real_of c) s (jkey x) (jctx x)) with (cse_eff c s (jkey x) (jctx x)).
   destruct (if jnocse x then None else lookup_pending s (jkey x, jctx x)) as [t|]; [left; now rewrite skip_real|].
   match goal with |- (match ?h with _ => _ end) = _ \/ _ => destruct h as [[v|e]|] end; [left; now rewrite skip_real|left; now rewrite skip_real|].
   right. exists x. split; auto. rewrite Hdry. destruct (jbadexec x); [now left|right].
@@ -170,7 +170,7 @@ Qed.
 
 Definition miss_branch (s : state) (x : job) (co : cache_outcome) : Prop :=
   (if jnocse x then None else lookup_pending s (jkey x, jctx x)) = None /\
-  (jnocse x = true \/ (cse_lookup c s (jkey x) (jctx x) = None /\ co = CMiss)).
+  (jnocse x = true \/ (cse_eff c s (jkey x) (jctx x) = None /\ co = CMiss)).
 
 Theorem dry_stop_means_work s j co x :
   Dry s -> getj s j = Some x -> jbadexec x = false -> within c (fun _ => 0%Z) (jlimits x) = true ->
@@ -180,12 +180,12 @@ Theorem dry_stop_means_work s j co x :
 Proof.
   intros D Hx Hb Hf [Ht Hh]. unfold exec_job. rewrite Hx, Ht.
   assert (Hhit : (if jnocse x then None
-                  else match cse_lookup c s (jkey x) (jctx x) with
+                  else match cse_eff c s (jkey x) (jctx x) with
                        | Some (Ok v) => Some (inl (Some v)) | Some (Ko e) => Some (inr e)
                        | None => match co with CMiss => None | CHitFinal v => Some (inl (Some v)) | CHitExpr => Some (inl None) end
                        end) = (None : option (option Z + Z))).
   { destruct Hh as [->|[-> ->]]; [reflexivity|]. destruct (jnocse x); reflexivity. }
-  change (cse_lookup (real_of c) s (jkey x) (jctx x)) with (cse_lookup c s (jkey x) (jctx x)).
+  change (cse_eff (real_of c) s (jkey x) (jctx x)) with (cse_eff c s (jkey x) (jctx x)).
   rewrite Hhit, Hdry, Hb. split; [apply (getj_setj_same _ _ _ _ Hx)|].
   cbn [dryrun real_of]. rewrite (within_zero s (jlimits x) (d_used _ D) Hf). cbn [negb].
   exists (mark_submitted (mark_holds x PSubmitted)). split; [|split; reflexivity].
